@@ -244,6 +244,24 @@ where
                 let id = self.upg_conn.get(u).copied().unwrap_or(-1);
                 self.events.push(json!({"e": "envUpgrade", "u": u, "id": id, "ok": ok, "who": who, "applied": applied}));
             }
+            "envConn" => {
+                // resolve the (first open) transport attempt of connection `id`, whichever direction
+                let id = vcommon::n(c, "id");
+                let ok = vcommon::b(c, "ok");
+                let who = vcommon::n(c, "who");
+                let slot = self.rig.world.with(|w| {
+                    (0..w.dials.len()).find(|n| self.slot_conn.get(*n) == Some(&id) && !w.dials[*n].done && !w.dials[*n].dropped && w.dials[*n].outcome.is_none())
+                });
+                let upg = self.rig.world.with(|w| {
+                    (0..w.upgrades.len()).find(|u| self.upg_conn.get(*u) == Some(&id) && !w.upgrades[*u].done && !w.upgrades[*u].dropped && w.upgrades[*u].outcome.is_none())
+                });
+                if let Some(n) = slot {
+                    return self.exec(&json!({"c": "envDial", "n": n, "ok": ok, "who": who}));
+                } else if let Some(u) = upg {
+                    return self.exec(&json!({"c": "envUpgrade", "u": u, "ok": ok, "who": who}));
+                }
+                self.events.push(json!({"e": "envDial", "n": -1, "id": id, "ok": ok, "who": who, "applied": false}));
+            }
             "failMux" => {
                 let id = vcommon::n(c, "id");
                 let m = self.muxer_of(id);
